@@ -1,3 +1,5 @@
+#[cfg(feature = "verif")]
+use crate::verif::shim as tokio;
 use crate::{
     Event, Result, ShareLock,
     event::Message,
@@ -149,6 +151,8 @@ impl Emitter {
 
     pub fn emit_proc_event(&self, proc: &Arc<Process>) {
         debug!("emit_proc_event: {}", proc.id());
+        #[cfg(feature = "verif")]
+        crate::verif::trace_proc_event(proc);
         let handlers = self.procs.read().unwrap();
         let e = &Event::new(&self.runtime.read().unwrap(), proc);
         for handle in handlers.iter() {
@@ -162,6 +166,8 @@ impl Emitter {
 
     pub fn emit_task_event_with_extra(&self, task: &Arc<Task>, emit_message: bool) -> Result<()> {
         debug!("emit_task_event: task={:?}", task);
+        #[cfg(feature = "verif")]
+        crate::verif::trace_task_event(task, emit_message);
         let handlers = self.tasks.read().unwrap();
         let e = &Event::new_with_extra(
             &self.runtime.read().unwrap(),
@@ -177,24 +183,44 @@ impl Emitter {
 
     pub fn emit_start_event(&self, state: &Message) {
         debug!("emit_start_event: {:?}", state);
+        #[cfg(feature = "verif")]
+        {
+            crate::verif::trace_emit("start", state);
+            crate::verif::note("start", &state.pid, &state.tid);
+        }
         let e = Event::new(&self.runtime.read().unwrap(), state);
         dispatch_key_event!(self, starts, &e);
     }
 
     pub fn emit_complete_event(&self, state: &Message) {
         debug!("emit_complete_event: {:?}", state);
+        #[cfg(feature = "verif")]
+        {
+            crate::verif::trace_emit("complete", state);
+            crate::verif::note("complete", &state.pid, &state.tid);
+        }
         let e = Event::new(&self.runtime.read().unwrap(), state);
         dispatch_key_event!(self, completes, &e);
     }
 
     pub fn emit_message(&self, msg: &Message) {
         debug!("emit_message: {:?}", msg);
+        #[cfg(feature = "verif")]
+        {
+            crate::verif::trace_emit("message", msg);
+            crate::verif::note("message", &msg.pid, &msg.tid);
+        }
         let e = Event::new(&self.runtime.read().unwrap(), msg);
         dispatch_key_event!(self, messages, &e);
     }
 
     pub fn emit_error(&self, state: &Message) {
         debug!("emit_error: {:?}", state);
+        #[cfg(feature = "verif")]
+        {
+            crate::verif::trace_emit("error", state);
+            crate::verif::note("error", &state.pid, &state.tid);
+        }
         let e = Event::new(&self.runtime.read().unwrap(), state);
         dispatch_key_event!(self, errors, &e);
     }
@@ -202,6 +228,8 @@ impl Emitter {
     pub fn emit_tick(&self) {
         let time_millis = utils::time::time_millis();
         debug!("emit_tick {time_millis}");
+        #[cfg(feature = "verif")]
+        crate::verif::note("tick", "", "");
         dispatch_event!(self, ticks, &time_millis);
     }
 
